@@ -83,9 +83,9 @@ func (v *VMValue) ArrayFuncKeepBase(ctx *Context, pickNum IntType, orderType int
 
 	num := float64(0)
 	for i := IntType(0); i < pickNum; i++ {
-		// 当取数大于上限 跳过
+		// 当取数大于上限 结束(取数可以是任意大的整数，不能空转)
 		if i >= IntType(len(nums)) {
-			continue
+			break
 		}
 		num += nums[i]
 	}
